@@ -589,7 +589,7 @@ class Util:
 
         time_string = str(time_string).upper()
 
-        if time_string.endswith('MS') or time_string.endswith('MSEC'):
+        if time_string.endswith('MS'):
             return int(time_string[:-2])
 
         if time_string.endswith('MSEC'):
